@@ -66,7 +66,7 @@ def explore(ctx, scale=1.0):
         docs.append((rng.choice(["CLASS\n  EXPRESSION %s\nEND", "LAYER\n  FILTER %s\nEND", "CLASS\n  TEXT %s\nEND"]) % src, "expression"))
     P = trees.parser(False, False)
     n_sets = 40 if ctx.thorough else 6
-    pp_cases = []
+    pp_cases, rl_cases = [], []
     for idx, (src, kind) in enumerate(docs):
         try:
             d0 = MapfileToDict().transform(P.parse(src))
@@ -94,6 +94,8 @@ def explore(ctx, scale=1.0):
             except Exception as ex:
                 ctx.count(f"first pass output unparseable ({type(ex).__name__}) — C01/C06 territory")
                 continue
+            if not o["separate_complex_types"] and len(rl_cases) < (4000 if ctx.thorough else 500):
+                rl_cases.append((src[:200], gen.plain_dict(d0), gen.plain_dict(d1)))
             r2 = ppcommon.real_pprint(d1, o)
             if r2 != r1:
                 ctx.violation("not-idempotent", "formatting already formatted output changes it: dumps(loads(t)) != t for t = dumps(…)", dict(rep, first=t[:3000], second=str(r2.get("ok", r2))[:3000]))
@@ -118,6 +120,7 @@ def explore(ctx, scale=1.0):
             if idx % 5 == 0 and len(pp_cases) < 300:
                 pp_cases.append((src[:60], gen.plain_dict(d1), o))
     ppcommon.pp_correspondence(ctx, pp_cases)
+    ppcommon.reload_correspondence(ctx, rl_cases)
     # ---------------- quoter correspondence ----------------
     alphabet = ['"', "'", "\\", "a", " ", "\\\\"]
     strings = set()
@@ -151,6 +154,6 @@ def twice(d, o):
 def main(ctx):
     if ctx.replay:
         print(open(ctx.replay).read()[:4000]); return
-    core.proof_leg(ctx, ["Mappy.Props.C04"])
+    core.proof_leg(ctx, ["Mappy.Props.C04", "Mappy.Props.C04Doc"])
     explore(ctx)
     core.finish(ctx, LEVEL_NOTE, RULE, search=lambda c: explore(c, scale=2.0))
